@@ -467,11 +467,13 @@ func BuildJoin(query *Query, joinExpr *sqlparser.JoinTableExpr) error {
 	if err != nil {
 		return err
 	}
+	query.adopt(left)
 	right := CopyQuery(query)
 	err = BuildFrom(right, &joinExpr.RightExpr)
 	if err != nil {
 		return err
 	}
+	query.adopt(right)
 	if joinExpr.Condition.On == nil {
 		expr := new(sqlparser.AndExpr)
 		expr.Left = sqlparser.BoolVal(true)
@@ -1872,6 +1874,7 @@ func (query *Query) exec() (result any, err error) {
 				copy := CopyQuery(query)
 				copy.from = current
 				rs, err := copy.exec()
+				query.adopt(copy)
 				if err != nil {
 					return nil, err
 				}
@@ -2020,6 +2023,21 @@ func Import(functions map[string]func([]any) (any, error)) {
 	for name, function := range functions {
 		RegisterExternalFunction(name, function)
 	}
+}
+
+// adopt hands the work that a copy made by CopyQuery has deferred (the post processors and the
+// asynchronous calls of a derived table on one side of a join, or of the rows of one inner
+// array) over to the query the copy was made from, which runs and awaits it when it finishes.
+// The copy starts out with the post processors of its origin; only what it added is taken over
+func (query *Query) adopt(copy *Query) {
+	if n := len(query.postProcessors); len(copy.postProcessors) > n {
+		query.postProcessors = append(query.postProcessors, copy.postProcessors[n:]...)
+	}
+	query.wg.Add(1)
+	go func() {
+		copy.wg.Wait()
+		query.wg.Done()
+	}()
 }
 
 func CopyQuery(query *Query) *Query {
